@@ -41,6 +41,7 @@ const (
 	OpExtract // a0 = hi, a1 = lo (stored in Hi/Lo)
 	OpZext    // to width W
 	OpSext
+	OpApp // application of an uninterpreted function Name to Args
 )
 
 var opNames = map[Op]string{
@@ -76,6 +77,7 @@ type Store struct {
 	True  *Term
 	False *Term
 	nvar  int
+	shapes map[string]string
 }
 
 func NewStore() *Store {
@@ -481,6 +483,67 @@ func (s *Store) Concat(hi, lo *Term) *Term {
 	return s.mk(&Term{Op: OpConcat, W: hi.W + lo.W, Args: []*Term{hi, lo}})
 }
 
+// ---- uninterpreted abstraction ----
+
+// App applies the uninterpreted function name (result width w) to args.
+func (s *Store) App(name string, w int, args []*Term) *Term {
+	return s.mk(&Term{Op: OpApp, W: w, Name: name, Args: args})
+}
+
+// Abstract replaces t by an application of an uninterpreted function to t's leaf
+// variables.  The function symbol is determined by t's *shape* (the DAG with its leaves
+// replaced by positional parameters), so two computations of the same shape over equal
+// inputs are equal (congruence is left to the solver), while nothing else is known about
+// the result.  This over-approximates the real function: unsat stays unsat.
+func (s *Store) Abstract(prefix string, t *Term) *Term {
+	if t.Op == OpConst {
+		return t
+	}
+	var leaves []*Term
+	leafIdx := map[*Term]int{}
+	memo := map[*Term]int{}
+	var sb strings.Builder
+	var walk func(n *Term) int
+	walk = func(n *Term) int {
+		if id, ok := memo[n]; ok {
+			return id
+		}
+		var id int
+		switch n.Op {
+		case OpVar, OpApp:
+			// leaf (a nested abstraction is a leaf too)
+			li, ok := leafIdx[n]
+			if !ok {
+				li = len(leaves)
+				leafIdx[n] = li
+				leaves = append(leaves, n)
+			}
+			id = len(memo)
+			fmt.Fprintf(&sb, "%d=L%d:%d;", id, li, n.W)
+		default:
+			var kids []int
+			for _, a := range n.Args {
+				kids = append(kids, walk(a))
+			}
+			id = len(memo)
+			fmt.Fprintf(&sb, "%d=%d:%d:%d:%d:%d%v;", id, n.Op, n.W, n.Val, n.Hi, n.Lo, kids)
+		}
+		memo[n] = id
+		return id
+	}
+	walk(t)
+	shape := sb.String()
+	name, ok := s.shapes[shape]
+	if !ok {
+		if s.shapes == nil {
+			s.shapes = map[string]string{}
+		}
+		name = fmt.Sprintf("%s_%d", prefix, len(s.shapes))
+		s.shapes[shape] = name
+	}
+	return s.App(name, t.W, leaves)
+}
+
 // ---- printing ----
 
 func sortStr(w int) string {
@@ -523,6 +586,9 @@ func (t *Term) Body() string {
 	}
 	var sb strings.Builder
 	sb.WriteString("(")
+	if t.Op == OpApp {
+		sb.WriteString(t.Name)
+	}
 	sb.WriteString(opNames[t.Op])
 	for _, a := range t.Args {
 		sb.WriteString(" ")
